@@ -249,7 +249,7 @@ def track_row_filter_agreement(prog, eff, chk, K8):
             if not cols or not all(c in ('id', 'count(*)') for c in cols):
                 continue        # reads columns of a row it was given, does not decide membership
             w = si.where.text().lower() if si.where is not None else ''
-            notnull = set(_re.findall(r'(\w+)\s+is\s+not\s+null', w))
+            notnull = set(m_[0] for m_ in _re.findall(r'(\w+)\s+(is\s+not\s+null|notnull|not\s+null)', w))
             equal = set(_re.findall(r'(\w+)\s*=\s*\?', w))
             deciders.append((f, st, notnull, equal, w))
     listing = [d for d in deciders if not d[3]]        # no key: the listing of all tracks
